@@ -39,6 +39,7 @@ CONSTANTS
   Runnable,     \* methods whose exchange the peer can complete
   PeerLevels,   \* honest peer's own policy level (both for auth and enc)
   Modes,        \* subset of {"fresh","resumed"}
+  EstChoices,   \* how a resumed session came about: "Honest" or the establishing peer's deviation
   Deviations,   \* the part of the catalogue to enumerate
   MaxDev,       \* at most this many deviation switches per behaviour ...
   Composites,   \* ... except these sets of ad-phase switches, allowed in full
@@ -77,7 +78,7 @@ PostDevs == {"PostAuthInClear", "PostAuthDenied"}
 NoEncDevs == {"AnswerEncNo", "NoCommonCipher", "ResumeKeyless", "ReplyWithoutKey"} \cup KeyDevs
 
 VARIABLES
-  cfg,      \* [role, auth, enc, integ, methods, peerLvl, mode, sess]
+  cfg,      \* [role, auth, enc, integ, methods, peerLvl, mode, sess, est, estEnc]
   phase,
   devs,     \* deviation switches the peer has used so far
   denied,   \* the peer (or its honest policy) reported DENIED / SID_NOT_FOUND
@@ -103,18 +104,30 @@ EncReq(c) == c.enc = "REQUIRED" \/ c.integ = "REQUIRED"
 NoSess == [authd |-> FALSE, keyed |-> FALSE]
 Sessions == [authd : BOOLEAN, keyed : BOOLEAN]
 
-\* A cached session was established under the same policy (assumption of C03;
-\* resumption across policies is the business of C05 / C06).
+\* The cached session of a resumed handshake.  sess holds the WIRE facts of the
+\* handshake that established it (an exchange ran? a key was agreed?), est says
+\* whether that handshake ran against an honest peer or one that kept the key
+\* from being agreed, estEnc is E's own encryption level at that time.  The
+\* authentication policy is the same on both connections (resumption across
+\* authentication policies is C05 / C06); the encryption level of the resuming
+\* handshake may be stricter (REQUIRED) than that of the establishing one.
+EstDevs == {"OmitECDH", "TruncateECDH", "NoCommonCipher"}
+
 SessionConsistent(c) ==
   /\ c.auth = "REQUIRED" => c.sess.authd
   /\ c.auth = "NEVER" => ~c.sess.authd
-  /\ EncReq(c) => c.sess.keyed
+  /\ c.estEnc = "REQUIRED" => c.sess.keyed       \* that is what REQUIRED meant back then
+  /\ c.est # "Honest" => (~c.sess.keyed /\ c.estEnc # "REQUIRED")
+  /\ \/ c.estEnc = c.enc
+     \/ (c.estEnc \in {"PREFERRED", "OPTIONAL"} /\ c.enc = "REQUIRED")
+  /\ c.integ = "REQUIRED" => (c.sess.keyed /\ c.est = "Honest" /\ c.estEnc = c.enc)
 
 Configs ==
   {c \in [role : Roles, auth : AuthLevels, enc : EncLevels, integ : IntegChoices,
-          methods : MethodLists, peerLvl : PeerLevels, mode : Modes, sess : Sessions] :
+          methods : MethodLists, peerLvl : PeerLevels, mode : Modes, sess : Sessions,
+          est : EstChoices, estEnc : EncLevels] :
      /\ (c.integ = "REQUIRED" => c.enc # "REQUIRED")
-     /\ (c.mode = "fresh" => c.sess = NoSess)
+     /\ (c.mode = "fresh" => (c.sess = NoSess /\ c.est = "Honest" /\ c.estEnc = c.enc))
      /\ (c.mode = "resumed" => SessionConsistent(c))}
 
 NotDone == [done |-> FALSE, ok |-> FALSE, auth |-> FALSE, method |-> "NONE", enc |-> FALSE, resumed |-> FALSE]
@@ -250,11 +263,12 @@ PeerClientHello(D) ==
   /\ phase' = "s_eval"
   /\ UNCHANGED <<cfg, denied, ansAuth, offered, sel, ran, keyE, postAuth, postDenied, policyAuth, encClaim, outcome>>
 
-\* E reconciles the two policies.  C03 only fixes: a conflict is a denial, and
-\* REQUIRED authentication means the exchange is demanded (C10 owns the table).
+\* E reconciles the two policies.  C03 only fixes that REQUIRED authentication
+\* means the exchange is demanded; whether a REQUIRED / NEVER conflict is denied
+\* is C10's table (E may always Abort), and a client whose "no" comes in a form
+\* E does not recognise as NEVER is no conflict at all.
 ServerEval ==
   /\ phase = "s_eval"
-  /\ ~Conflict(cfg.auth, pAuth) /\ ~Conflict(cfg.enc, pEnc)
   /\ \E b \in BOOLEAN :
        /\ cfg.auth = "REQUIRED" => b
        /\ b => Runnable \cap SetOf(cfg.methods) # {}   \* the honest client lists what it can run
@@ -354,13 +368,16 @@ PeerResumeRequest(d) ==
   /\ UNCHANGED <<cfg, denied, ansAuth, pAuth, pEnc, keyMat, cipherOK, offered, sel, ran, keyE,
                  postAuth, postDenied, policyAuth, encClaim, outcome>>
 
-\* E re-installs the cached key if the session has one.  The statement demands
+\* E re-installs the cached key if the session has one.  A session without a key
+\* cannot be resumed under REQUIRED encryption / integrity (only Abort is left).  The statement demands
 \* it only under REQUIRED encryption / integrity (whether every keyed session
 \* must come back protected is C06's business), so E may also leave it out.
 ResumeInstall ==
   /\ phase \in {"c_reskey", "s_resume"}
   /\ ~denied
-  /\ \E k \in BOOLEAN : (k => cfg.sess.keyed) /\ (EncReq(cfg) => k) /\ keyE' = k
+  /\ \E k \in BOOLEAN : /\ k => cfg.sess.keyed
+                        /\ EncReq(cfg) => (k \/ "ResumeKeylessUnderRequired" \in Bug)
+                        /\ keyE' = k
   /\ encClaim' = ("ResumeFlagWithoutKey" \in Bug /\ ~cfg.sess.keyed)
   /\ SuccessResumed(keyE', encClaim')
   /\ UNCHANGED <<cfg, devs, denied, ansAuth, pAuth, pEnc, keyMat, cipherOK, offered, sel, ran,
